@@ -1,6 +1,9 @@
 use super::*;
 use crate::wire::Result;
 
+/// Next-header and length octets in front of the options of an IPv6 extension header.
+const IPV6_EXT_HEADER_LEN: usize = 2;
+
 // Max len of non-fragmented packets after decompression (including ipv6 header and payload)
 // TODO: lower. Should be (6lowpan mtu) - (min 6lowpan header size) + (max ipv6 header size)
 pub(crate) const MAX_DECOMPRESSED_LEN: usize = 1500;
@@ -542,6 +545,38 @@ impl InterfaceInner {
                     checksum_caps,
                 );
             }
+            // MLD reports: the hop-by-hop header (router alert) travels as a LOWPAN_NHC
+            // extension header, followed by the uncompressed ICMPv6 message.
+            IpPayload::HopByHopIcmpv6(hbh_repr, icmp_repr) => {
+                let ext_hdr = SixlowpanExtHeaderRepr {
+                    ext_header_id: SixlowpanExtHeaderId::HopByHopHeader,
+                    next_header: SixlowpanNextHeader::Uncompressed(IpProtocol::Icmpv6),
+                    length: hbh_repr.buffer_len() as u8,
+                };
+                ext_hdr.emit(&mut SixlowpanExtHeaderPacket::new_unchecked(
+                    &mut buffer[..ext_hdr.buffer_len()],
+                ));
+                buffer = &mut buffer[ext_hdr.buffer_len()..];
+
+                for opt in &hbh_repr.options {
+                    opt.emit(&mut Ipv6Option::new_unchecked(
+                        &mut buffer[..opt.buffer_len()],
+                    ));
+                    buffer = &mut buffer[opt.buffer_len()..];
+                }
+
+                // The message extends to the end of the datagram (the address records of a
+                // report are not part of `buffer_len()`).
+                let icmp_len = packet.header.payload_len
+                    - IPV6_EXT_HEADER_LEN
+                    - hbh_repr.buffer_len();
+                icmp_repr.emit(
+                    &packet.header.src_addr,
+                    &packet.header.dst_addr,
+                    &mut Icmpv6Packet::new_unchecked(&mut buffer[..icmp_len]),
+                    checksum_caps,
+                );
+            }
             #[cfg(feature = "socket-raw")]
             IpPayload::Raw(_raw) => todo!(),
 
@@ -641,6 +676,22 @@ impl InterfaceInner {
                 compressed_hdr_size += udp_hdr.header_len();
 
                 total_size += udp_hdr.header_len() + payload.len();
+            }
+            IpPayload::HopByHopIcmpv6(ref hbh_repr, _) => {
+                let options_size = hbh_repr.buffer_len();
+                let uncompressed_ext_hdr_size = IPV6_EXT_HEADER_LEN + options_size;
+
+                let ext_hdr = SixlowpanExtHeaderRepr {
+                    ext_header_id: SixlowpanExtHeaderId::HopByHopHeader,
+                    next_header: SixlowpanNextHeader::Uncompressed(IpProtocol::Icmpv6),
+                    length: options_size as u8,
+                };
+
+                uncompressed_hdr_size += uncompressed_ext_hdr_size;
+                compressed_hdr_size += ext_hdr.buffer_len() + options_size;
+                total_size += ext_hdr.buffer_len()
+                    + options_size
+                    + (packet.header.payload_len - uncompressed_ext_hdr_size);
             }
             _ => {
                 total_size += packet.header.payload_len;
